@@ -4,6 +4,12 @@ import json, os
 HERE = os.path.dirname(os.path.dirname(os.path.abspath(__file__)))
 props = [json.loads(l)['id'] for l in open(os.path.join(HERE, 'properties.jsonl'))]
 CLAIMED = {
+ 'C01': ('3.1', 'end-to-end symbolic execution of the real segno.make on content whose bytes are free 8-bit variables (forking on mode detection, if-converted Reed-Solomon), ISO reference reader on the symbolic matrix, per-byte equalities decided by z3',
+         'For every listed shape (version, level, mask, mode, eci, encoding, micro, boost, part structure, content length) z3 shows for ALL byte values of the content that the ISO reader recovers exactly the given bytes, that the mode indicator equals QRCode.mode, that the ECI header is present exactly when required with the ISO number and that level/mask/version in the symbol equal the reported ones. Text goes through a codec stub (arbitrary bytes or UnicodeError per codec), integers through symbolic digits.',
+         'trusted: /verif/ref/decoder.py, layout.py, iso_tables.py (ECI register numbers), CPython codecs, z3; content lengths are the listed ones, automatic mask selection is not on this path (C06)'),
+ 'C07': ('3.7', 'symbolic execution of the real find_mode/make_segment on byte strings of free bytes (all lengths up to the bound), path conditions compared with the ISO character-set predicates by z3; symbol-level mode indicator through the C01 reader',
+         'For every content length up to the bound and ALL byte values, z3 shows that the automatically chosen mode is the first applicable of numeric/alphanumeric/kanji/byte, that a requested mode is kept iff the content is representable in it and otherwise refused with ValueError (nothing else escapes), that is_mode_supported matches ISO Table 2 for a symbolic version, and that QRCode.mode equals the mode indicator read from the symbol.',
+         'trusted: ISO character-set predicates in /verif/props/datapath.py, models of bytes.isdigit / the compiled character class derived from its own pattern, z3'),
  'C02': ('3.2', 'symbolic-index table lemmas (BCH/Golay by bit-vector polynomial division) + symbolic execution of the real _encode with a free codeword stream, z3',
          'For every version/level/mask shape explored, every function module, format and version bit of the returned matrix equals the ISO layout for ALL codeword contents (the stream is a vector of free bit variables); the format/version tables are proved equal to the BCH(15,5)/Golay(18,6) words for every index by z3. Bounded by the shape list of the tier (thorough: all 1312 triples).',
          'trusted: /verif/ref/layout.py (ISO layout, BCH/Golay), iso_tables.py (Annex E rule), z3, CPython; make_final_message output abstracted to free bits of the real length'),
